@@ -9,6 +9,8 @@ import (
 	"io"
 	"os"
 	"sort"
+	"strconv"
+	"time"
 )
 
 // Case is one line of the protocol: the generated input and what the real code did with it.
@@ -27,6 +29,21 @@ type Stream struct {
 	Gen    func(r *Rand, i int) interface{}
 	Run    func(in json.RawMessage) (interface{}, error)
 	Corpus []interface{} // hand-picked inputs that always run first
+	// CaseTimeout is the ceiling for one case (0 = DefaultCaseTimeout). A case that does not answer within it is
+	// reported as {"hang": …} — an observable like a panic — and the process ends (its state can no longer be
+	// trusted; the remaining cases of the shard are skipped).
+	CaseTimeout time.Duration
+}
+
+// DefaultCaseTimeout can be overridden with VERIF_CASE_TIMEOUT (seconds).
+var DefaultCaseTimeout = 300 * time.Second
+
+func init() {
+	if v := os.Getenv("VERIF_CASE_TIMEOUT"); v != "" {
+		if n, err := strconv.Atoi(v); err == nil && n > 0 {
+			DefaultCaseTimeout = time.Duration(n) * time.Second
+		}
+	}
 }
 
 var registry = map[string]*Stream{}
@@ -82,11 +99,34 @@ func EmitOne(w *Writer, s *Stream, in interface{}) error {
 	if err != nil {
 		return err
 	}
-	out, err := SafeRun(func() (interface{}, error) { return s.Run(raw) })
-	if err != nil {
-		out = map[string]interface{}{"harness_error": err.Error()}
+	type res struct {
+		out interface{}
+		err error
 	}
-	return w.Emit(&Case{Stream: s.Name, In: json.RawMessage(raw), Impl: out})
+	ch := make(chan res, 1)
+	go func() {
+		out, err := SafeRun(func() (interface{}, error) { return s.Run(raw) })
+		ch <- res{out, err}
+	}()
+	limit := s.CaseTimeout
+	if limit == 0 {
+		limit = DefaultCaseTimeout
+	}
+	select {
+	case r := <-ch:
+		out, err := r.out, r.err
+		if err != nil {
+			out = map[string]interface{}{"harness_error": err.Error()}
+		}
+		return w.Emit(&Case{Stream: s.Name, In: json.RawMessage(raw), Impl: out})
+	case <-time.After(limit):
+		// the real code (or the scenario around it) does not come back: report it with the input, then stop
+		w.Emit(&Case{Stream: s.Name, In: json.RawMessage(raw), Impl: map[string]interface{}{"hang": fmt.Sprintf("no answer within %s", limit)}})
+		w.Flush()
+		fmt.Fprintf(os.Stderr, "hx: case of stream %s did not answer within %s; remaining cases skipped\n", s.Name, limit)
+		os.Exit(0)
+		return nil
+	}
 }
 
 func Fatal(format string, a ...interface{}) {
